@@ -23,7 +23,9 @@ sys.path.insert(0, VERIF)
 
 
 class H:
-    def __init__(self, tier, seed, only=None, replay_test=None):
+    def __init__(self, tier, seed, only=None, replay_test=None, shard=(0, 1)):
+        self.shard = shard                   # (index, count): a test that declares `shards` has its random cases split
+        self.first_shard = shard[0] == 0     # deterministic sections of a sharded test run in the first shard only
         self.tier = tier
         self.seed = seed
         self.rng = random.Random(seed)
@@ -37,7 +39,8 @@ class H:
         self.bounds = []
 
     def n(self, quick=60, thorough=600):
-        return quick if self.tier == 'quick' else thorough
+        n = quick if self.tier == 'quick' else thorough
+        return -(-n // self.shard[1])
 
     def spec(self, src, **free):
         ns = dict(free)
@@ -54,7 +57,7 @@ class H:
             pass
         if not ok:
             if len([f for f in self.failures if f['test'] == t]) < 3:
-                self.failures.append(dict(test=t, fn=fn, seed=self.seed, input=_short(input), expected=_short(expected),
+                self.failures.append(dict(test=t, fn=fn, seed=self.seed, shard='%d/%d' % self.shard, input=_short(input), expected=_short(expected),
                                           observed=_short(observed), note=note))
         return ok
 
@@ -104,6 +107,8 @@ def main():
     ap.add_argument('--seed', type=int, default=0)
     ap.add_argument('--only')
     ap.add_argument('--replay')
+    ap.add_argument('--shard', default='0/1')
+    ap.add_argument('--test', help='run exactly this native test (item.name); the driver runs the tests of a property side by side')
     a = ap.parse_args()
     replay_test = None
     seed = a.seed
@@ -112,7 +117,9 @@ def main():
         fi = rec.get('failing_input') or {}
         replay_test = fi.get('test')
         seed = fi.get('seed', seed)
-    h = H(a.tier, seed, a.only, replay_test)
+        a.shard = fi.get('shard') or a.shard
+    shard = tuple(int(x) for x in a.shard.split('/'))
+    h = H(a.tier, seed, a.only, replay_test, shard)
     out = dict(cases=0, failures=[], tests=[], crashed=None)
     real_stdout = sys.stdout
     try:
@@ -127,8 +134,12 @@ def main():
                 full = '%s.%s' % (item.name, name)
                 if replay_test and replay_test != full:
                     continue
+                if a.test and a.test != full:
+                    continue
                 h.cur = full
-                h.rng = random.Random('%s/%s' % (seed, full))
+                if shard[1] > 1 and getattr(fn, 'shards', 1) != shard[1]:
+                    continue          # a shard request is for the tests that declare exactly that many shards
+                h.rng = random.Random('%s/%s' % (seed, full) if shard[1] == 1 else '%s/%s/%d' % (seed, full, shard[0]))
                 buf = io.StringIO()
                 try:
                     with contextlib.redirect_stdout(buf):
